@@ -11,7 +11,8 @@
 (* For every structure TLC computes the map (ic, ig = what is handed to    *)
 (* cmap.Format4 / cmap.Format12) and spec-encoded subtables for the        *)
 (* library DEcoder: tw (format 4: reference segmentation, explicit glyph   *)
-(* arrays with idDelta 0 / 3 / 65535, one wide array; format 12: maximal   *)
+(* arrays with idDelta 0 / 3 / 65535, one wide array, arrays stored in     *)
+(* reverse segment order, equal arrays stored once; format 12: maximal     *)
 (* or single-code groups), t6 (format 6), t0 (format 0, when all codes and *)
 (* glyphs are below 256).  The record is printed as one CASE line.         *)
 (***************************************************************************)
@@ -28,7 +29,7 @@ Anchors4  == IF FewAnchors THEN {<<"s", 0>>, <<"e", 65535>>}
 Anchors12 == IF FewAnchors THEN {<<"s", 65534>>}
              ELSE {<<"s", 0>>, <<"s", 65534>>, <<"s", 128512>>, <<"e", 1114111>>}
 Langs  == <<0, 5, 65535>>
-Vars4  == <<"ref", "arr0", "arr3", "arrM", "wide0", "wide5">>
+Vars4  == <<"ref", "arr0", "arr3", "arrM", "wide0", "wide5", "rev0", "rev3", "share0">>
 Vars12 == <<"ref", "single">>
 KindIx(k) == CASE k = "delta" -> 0 [] k = "perm" -> 1 [] k = "zeroA" -> 2 [] k = "zeroE" -> 3
                [] k = "const" -> 4 [] k = "wrap" -> 5
@@ -66,10 +67,12 @@ Hash(bs, m) == FoldLeft(LAMBDA a, b : a + b[1] + 3 * b[2] + 7 * KindIx(b[3]) + (
                         Len(bs), bs) % m
 
 Table4(p, var, lang) ==
-  LET d == CASE var = "arr3" -> 3 [] var = "arrM" -> 65535 [] var = "wide5" -> 5 [] OTHER -> 0
+  LET d == CASE var \in {"arr3", "rev3"} -> 3 [] var = "arrM" -> 65535 [] var = "wide5" -> 5 [] OTHER -> 0
       dd == IF CanDelta(p, d) THEN d ELSE 0
   IN CASE var = "ref" -> Build4(RefSegs(p), lang)
        [] var \in {"arr0", "arr3", "arrM"} -> Build4(ArrSegs(p, dd), lang)
+       [] var \in {"rev0", "rev3"} -> Build4L(ArrSegs(p, dd), lang, "rev")
+       [] var = "share0" -> Build4L(ArrSegs(p, dd), lang, "share")
        [] OTHER -> Build4(WideSegs(p, dd), lang)
 
 Record(f, a, bs, lang, var) ==
